@@ -6,7 +6,7 @@
 # no-check (property not claimed), stale (patch no longer applies) or broken (other exit).
 # The evidence file of the property is restored from git after each run: evidence must only ever describe /repo itself.
 set -u
-cd /verif
+cd "$(dirname "$0")/.." || exit 3   # the copy of /verif this script belongs to (a snapshot runs in its own directory)
 export GOFLAGS=-mod=mod GOPROXY=off GOSUMDB=off GOTOOLCHAIN=local
 seeds=("$@")
 if [ ${#seeds[@]} = 0 ]; then seeds=($(ls seeded | grep -v '\.md$')); fi
